@@ -111,11 +111,23 @@ func (r *Parser) Buffer(buf []byte, maxSize int) {
 
 // New returns a Parser that extracts fields from a reader.
 func New(r io.Reader) *Parser {
-	sc := bufio.NewScanner(r)
-	sc.Split(splitFunc)
-
 	fsc := NewFieldParser("")
 	fsc.RemoveBOM(true)
+
+	sc := bufio.NewScanner(r)
+	first := true
+	sc.Split(func(data []byte, atEOF bool) (int, []byte, error) {
+		advance, token, err := splitFunc(data, atEOF)
+		if first && token != nil {
+			first = false
+			if advance != len(token) {
+				// Blank lines were skipped, so the first chunk is not at the start
+				// of the input: what looks like a BOM there is not one.
+				fsc.RemoveBOM(false)
+			}
+		}
+		return advance, token, err
+	})
 
 	return &Parser{inputScanner: sc, fieldScanner: fsc}
 }
